@@ -29,7 +29,9 @@ type C18Peer struct {
 
 type C18Scenario struct {
 	// Metrics: the Exchange is built WithMetrics (a configuration that must not change any result)
-	Metrics bool      `json:"metrics,omitempty"`
+	Metrics bool `json:"metrics,omitempty"`
+	// Restart: the Exchange is stopped and started again before it is used
+	Restart bool      `json:"restart,omitempty"`
 	From    uint64    `json:"from"`
 	Len     int       `json:"len"` // number of headers requested: to = from+1+len
 	Chunk   uint64    `json:"chunk"`
@@ -74,6 +76,8 @@ func genC18(t *rapid.T) C18Scenario {
 		s.Peers = append(s.Peers, p)
 	}
 	s.Metrics = rapid.IntRange(0, 3).Draw(t, "metrics") == 0
+	// no Restart here: the peer tracker is not restartable upstream (its context is created by the constructor), so a
+	// restarted Exchange never learns about peers connecting later; Head/Get (C09, C13) do not depend on it
 	return s
 }
 
@@ -116,8 +120,8 @@ func (s *slowStore) HasAt(ctx context.Context, h uint64) bool {
 }
 
 func runC18(t *testing.T, s C18Scenario) (res Result) {
-	exchangeMetrics = s.Metrics
-	defer func() { exchangeMetrics = false }()
+	exchangeMetrics, exchangeRestart = s.Metrics, s.Restart
+	defer func() { exchangeMetrics, exchangeRestart = false, false }()
 	bubble(t, func() {
 		const timeout = time.Second
 		chain := vh.ChainSpec{ChainID: "c18", N: c18ChainLen, StartMs: -1_000_000}.Build()
